@@ -1413,7 +1413,11 @@ def traverse(
           preorder_action = TraverseAction.STOP
           break
     elif isinstance(x, list):
-      for i, v in enumerate(x):
+      # NOTE: visit the symbolic form of a symbolic list, as `Dict.items()`
+      # gives it for dicts: an inferential element (`pg.Ref`, a value from the
+      # parent chain) is a node of its own, not the value it infers to.
+      values = x.sym_values() if isinstance(x, Symbolic) else x
+      for i, v in enumerate(values):
         if not traverse(
             v,
             preorder_visitor_fn,
